@@ -42,7 +42,7 @@ MANIFEST = {
 }
 BUDGET = {"quick": (600, 80), "thorough": (6000, 1500)}
 REQUIRED_PROBES = {"quick": ["wf_tile_fits_tan", "wf_study", "history_reuse", "history_override"],
-                   "thorough": ["wf_tile_fits_tan", "wf_tile_fits_toast", "toast_inputs_of_different_scale", "wf_study", "wf_allsky", "wf_pipeline", "wf_cli_study", "wf_cli_wwtl", "history_reuse", "history_override", "scheme_LXY"]}
+                   "thorough": ["wf_tile_fits_tan", "wf_tile_fits_toast", "toast_inputs_of_different_scale", "wf_study", "wf_allsky", "wf_pipeline", "wf_cli_study", "study_from_avm_tags", "wf_cli_wwtl", "history_reuse", "history_override", "scheme_LXY"]}
 CHUNK = 3
 
 
@@ -483,11 +483,36 @@ def run_one(ch, env):
             lv, ref = study_tiles(arr)
             src = os.path.join(d, "input.png")
             PILImage.fromarray(arr).save(src)
-            res["config"].update(shape=list(arr.shape), tile_levels=lv)
-            label = "toasty tile-study + cascade CLI (%dx%d, %d workers)" % (arr.shape[1], arr.shape[0], workers)
+            # one run in three: the image carries AVM tags (title, credit, reference URL, full astrometry) and the
+            # study takes its positioning from them (`--avm`)
+            with_avm = ch.draw(3, kind="avm_tags") == 2
+            if with_avm:
+                from pyavm import AVM
+                avm = AVM()
+                avm.Title = "Generated image"
+                avm.Description = "A synthetic press-release image"
+                avm.Credit = "toastysim"
+                if ch.draw(4, kind="avm_reference_url") != 0:
+                    avm.ReferenceURL = "https://observatory.example.org/public/images/x1/"
+                h_, w_ = arr.shape[:2]
+                avm.Spatial.CoordinateFrame = "ICRS"
+                avm.Spatial.Equinox = "J2000"
+                avm.Spatial.ReferenceValue = [(83.6, 0.02, 359.9)[ch.draw(3, kind="avm_ra")], (22.0, -60.5)[ch.draw(2, kind="avm_dec")]]
+                avm.Spatial.ReferenceDimension = [w_, h_]
+                avm.Spatial.ReferencePixel = [w_ / 2 + 0.5, h_ / 2 + 0.5]
+                avm.Spatial.Scale = [-0.001, 0.001]
+                avm.Spatial.Rotation = (10.0, 0.0, -135.0)[ch.draw(3, kind="avm_rot")]
+                avm.Spatial.CoordsystemProjection = "TAN"
+                avm.Spatial.Quality = "Full"
+                tagged = os.path.join(d, "input-avm.png")
+                avm.embed(src, tagged)
+                src = tagged
+                res["probes"]["study_from_avm_tags"] = 1
+            res["config"].update(shape=list(arr.shape), tile_levels=lv, avm=with_avm)
+            label = "toasty tile-study%s + cascade CLI (%dx%d, %d workers)" % (" --avm" if with_avm else "", arr.shape[1], arr.shape[0], workers)
 
             def call():
-                tcli.entrypoint(["tile-study", "--placeholder-thumbnail", "--outdir", out, src])
+                tcli.entrypoint(["tile-study"] + (["--avm"] if with_avm else []) + ["--placeholder-thumbnail", "--outdir", out, src])
                 tcli.entrypoint(["cascade", "--start", str(lv), "-j", str(workers), out])
 
             under_sim(call, label)
